@@ -684,7 +684,14 @@ func checkLinearizable(w *workload, st *stats, tag string) {
 
 func scenarioC07(o *common.Opts, idx int, st *stats, n int, race bool) string {
 	dir := filepath.Join(o.Work, fmt.Sprintf("c07-%d", idx))
-	c, err := cluster.New(dir, n, race, nil)
+	// every other nemesis cluster snapshots every 40 applied entries and keeps 5 behind: a node that was away comes
+	// back through its own snapshot and, if it missed more than the log keeps, through one sent by the leader
+	var env []string
+	if (idx/10)%2 == 1 {
+		env = []string{"VERIF_SNAPCOUNT=40", "VERIF_CATCHUP=5"}
+		st.kinds["cluster-with-snapshots"]++
+	}
+	c, err := cluster.New(dir, n, race, env)
 	if err != nil {
 		return err.Error()
 	}
